@@ -4,5 +4,6 @@ CONSTANTS
   MaxLen = 6
   Thresholds = {0, 1, 2, 3}
   AnswerDelays = {0}
+  DrainLens = {1, 2}
 INVARIANTS InvFinal Export
 CHECK_DEADLOCK FALSE
